@@ -38,7 +38,8 @@ def _grid(tier, seed):
                                    for _ in range(n - 1)],
                 "seed": rng.randrange(2 ** 31),
                 "policy": rng.choice(F.POLICIES),
-                "adv_seed": rng.randrange(2 ** 31), "maxlength": 200}
+                "adv_seed": rng.randrange(2 ** 31), "maxlength": 200,
+                "screen": rng.choice([1, 1, 1, 0, 2, 3, 5])}
         r = rng.random()
         if r < 0.6 and steps - 1 >= w:
             k = rng.randint(w, steps - 1)
@@ -73,6 +74,21 @@ def _mons(spec, cdir):
     from vf.rig_sched import read_restart
 
     class M(CountMonitor):
+        def after_treat(self, rig, state, out, md_items):
+            CountMonitor.after_treat(self, rig, state, out, md_items)
+            # the completed move must be recorded: the restart file on disk
+            # carries the step counter of the move just completed
+            try:
+                c = read_restart(rig.cdir)["current"]["cstep"]
+            except Exception:
+                c = None
+            rig.reach("restart_cstep_per_move")
+            if c != int(state.cstep):
+                rig.violate("restart-file-lags-completed-moves",
+                            f"after move {int(state.cstep)} restart.toml on "
+                            f"disk has cstep={c} (screen="
+                            f"{spec.get('screen', 1)})")
+
         def after_segment(self, rig, i, out):
             segs = spec.get("segments") or [{"steps": spec["steps"]}]
             seg = segs[i]
@@ -130,7 +146,7 @@ def _mons(spec, cdir):
                 for line in f:
                     if "]: shooted " in line:
                         n_sh += 1
-            if n_sh != self.treated:
+            if spec.get("screen", 1) == 1 and n_sh != self.treated:
                 rig.violate("log-records", f"{n_sh} 'shooted' records in "
                             f"sim.log, {self.treated} moves completed")
     return [M()]
